@@ -76,8 +76,30 @@ impl Cx {
     if rng.chance(1, 10) {
       spec.expiration = Some(T_MAX);
     }
+    // an issuer object that carries nothing but its id is still an object
+    if spec.issuer_props.is_none() && rng.chance(1, 10) {
+      spec.issuer_props = Some(Map::new());
+    }
+    // extra properties whose names other data-model versions / profiles give a meaning to: here they are plain properties
+    if rng.chance(1, 6) {
+      let name = *rng.pick(&["validFrom", "validUntil", "name", "description", "issued", "expires", "holder", "sub", "iss", "nbf", "exp", "jti", "vc", "relatedResource", "confidenceMethod"]);
+      let v = match rng.below(4) {
+        0 => json!(credgen::rfc3339(spec.issuance)),
+        1 => json!(credgen::rfc3339(spec.expiration.unwrap_or(spec.issuance + 1))),
+        2 => json!(credgen::rfc3339(rng.range_i64(T_MIN, T_MAX))),
+        _ => json!({"note": rng.below(100)}),
+      };
+      spec.properties.insert(name.to_string(), v);
+    }
     let custom = gen_custom_claims(rng);
-    let vc_json = spec.vc_json();
+    let mut vc_json = spec.vc_json();
+    // the single subject written as a one-element array: the library may refuse to convert it (the claims set has room for
+    // one subject object only), but if it converts, the round trip must still give back an equal credential
+    let subject_as_array = rng.chance(1, 12);
+    if subject_as_array {
+      let s = vc_json["credentialSubject"].take();
+      vc_json["credentialSubject"] = json!([s]);
+    }
     let case = json!({"credential": vc_json, "custom_claims": custom});
     let cred: Credential = match catch(|| Credential::from_json_value(vc_json.clone())) {
       Err(p) => return self.viol(&format!("credential-from-json-panic@{}", p.file_only()), p.msg.clone(), &case),
@@ -90,10 +112,17 @@ impl Cx {
     let custom_obj: Option<Object> = if custom.is_empty() { None } else { Some(custom.clone().into_iter().collect()) };
     let claims_text = match catch(|| cred.serialize_jwt(custom_obj.clone())) {
       Err(p) => return self.viol(&format!("serialize_jwt-panic@{}", p.file_only()), format!("{} at {}", p.msg, p.loc()), &case),
+      Ok(Err(_)) if subject_as_array => {
+        self.rep.inc("serialize_jwt_refused_subject_array");
+        return;
+      }
       Ok(Err(e)) => return self.viol("serialize_jwt-refuses-single-subject-credential", format!("serialize_jwt failed: {}", e), &case),
       Ok(Ok(t)) => t,
     };
     self.rep.inc("credentials_serialized");
+    if subject_as_array {
+      self.rep.inc("credentials_serialized_subject_array");
+    }
     let class = format!(
       "cred|iss:{}|sub:{}|id:{}|exp:{}|status:{}|schema:{}|refresh:{}|terms:{}|evidence:{}|nt:{:?}|props:{}|proof:{}|custom:{}|ctx1:{}|ty1:{}",
       if spec.issuer_props.is_some() { "obj" } else if did_issuer { "did" } else { "url" },
